@@ -28,13 +28,14 @@ RULE = ("A: one evaluation = one (stack kind, option, value) written and read ba
         "option) lookup judged by the reference; distinct = distinct (file, location, option); non-trivial = at least one "
         "location section matches the location")
 CASES = {"quick": 1200, "thorough": 100000}
-BUDGET_S = {"quick": 45, "thorough": 800}
-MIN_EVALS = {"quick": 4000, "thorough": 130000}
+BUDGET_S = {"quick": 30, "thorough": 800}
+MIN_EVALS = {"quick": 1500, "thorough": 130000}
 FLOORS = {
-    "quick": {"roundtrip": 700, "roundtrip_global": 400, "roundtrip_location": 180, "roundtrip_branch": 100,
-              "preexisting_survives": 500, "location_lookup": 2500, "location_judged": 2300, "location_specificity": 250,
-              "location_ignore_parents": 400, "location_appendpath": 180, "location_relpath": 120,
-              "location_branchstack": 200, "doc_example": 12, "startingpath": 400},
+    # quick floors sit at ~15% of a full run: on a loaded machine the 30 s soft deadline cuts the run short
+    "quick": {"roundtrip": 300, "roundtrip_global": 160, "roundtrip_location": 80, "roundtrip_branch": 45,
+              "preexisting_survives": 230, "location_lookup": 1000, "location_judged": 950, "location_specificity": 110,
+              "location_ignore_parents": 190, "location_appendpath": 80, "location_relpath": 60,
+              "location_branchstack": 90, "doc_example": 12, "startingpath": 240},
     # thorough floors sit at ~15% of a full run (a loaded machine reaches the soft deadline early)
     "thorough": {"roundtrip": 25000, "roundtrip_global": 14000, "roundtrip_location": 7000, "roundtrip_branch": 3500,
                  "preexisting_survives": 20000, "location_lookup": 90000, "location_judged": 85000, "location_specificity": 10000,
@@ -446,7 +447,7 @@ def case(ctx):
         if ctx.index == 0:
             doc_examples(ctx, home)
             return
-        m = ctx.index % 8
+        m = rng.randrange(8)     # not index % 8: shards take indices modulo the shard count, every worker should see every kind
         if m in (0, 1):
             roundtrip(ctx, rng, home, "global")
             for f in ("breezy.conf",):
